@@ -53,6 +53,15 @@ func main() {
 		code := f(e)
 		e.Close()
 		os.Exit(code)
+	case "warm":
+		wd, _ := os.Getwd()
+		e, err := fw.NewEnv("/repo", wd, "quick", 1)
+		if err != nil {
+			fmt.Fprintln(os.Stderr, "warm:", err)
+			os.Exit(2)
+		}
+		fw.Warm(e)
+		e.Close()
 	case "replay":
 		if len(os.Args) < 3 {
 			usage()
